@@ -48,6 +48,7 @@ func c16Version(c *Ctx) {
 	// where ProtocolVersion is stored on the server side: follow the stored value to the negotiating call
 	var negotiators []*ssa.Function
 	var builders []*ssa.Function
+	fromMember := false
 	for _, fn := range c.P.LibFns {
 		ir.EachInstr(fn, func(_ *ssa.BasicBlock, _ int, in ssa.Instruction) {
 			st, ok := in.(*ssa.Store)
@@ -59,6 +60,13 @@ func c16Version(c *Ctx) {
 				return
 			}
 			builders = append(builders, fn)
+			// the version that is answered is computed for this request: a value read back from a member of an object
+			// that serves every request (the lifecycle manager) may be the one another client's initialize left there
+			if lf, base, ok := ir.LoadedField(unspill(st.Val)); ok && lf.Struct != nil && ir.InLibrary(lf.Struct) && !ir.BaseAlloc(base) && lf.Struct != initRes {
+				fromMember = true
+				c.R.Violate("R-version-select", "answered version in "+fname(fn), c.Pos(st.Pos()),
+					sprintf("%s answers initialize with a protocol version read from %s, a member of an object shared by all requests, instead of the value negotiated for this request: with clients initializing concurrently one client's answer carries the version another client asked for", fname(fn), lf.Key()))
+			}
 			for _, src := range traceToCalls(c, fn, st.Val, 0) {
 				if sc := ir.StaticCallee(src); sc != nil && c.P.IsLib(sc) {
 					negotiators = append(negotiators, sc)
@@ -100,6 +108,9 @@ func c16Version(c *Ctx) {
 		}
 		n++
 		checkNegotiator(c, neg)
+	}
+	if fromMember {
+		return // reported above: the negotiation is no longer what the answer is built from
 	}
 	if n == 0 {
 		c.R.Break("no version negotiation function found behind InitializeResult.ProtocolVersion (builders: %d)", len(builders))
